@@ -11,6 +11,7 @@ from typing import Optional
 
 from cdd.shared.ast_utils import cmp_ast, get_doc_str
 from cdd.shared.cst_utils import (
+    CommentStatement,
     FunctionDefinitionStart,
     TripleQuoted,
     UnchangingLine,
@@ -105,9 +106,28 @@ def maybe_replace_doc_str_in_function_or_class(node, cst_idx, cst_list):
     :rtype: ```Delta```
     """
     new_doc_str: str = get_doc_str(node) or ""
+    # Comments may sit between the `def`/`class` line and its docstring
+    doc_str_idx: int = cst_idx + 1
+    while doc_str_idx < len(cst_list) and isinstance(
+        cst_list[doc_str_idx], CommentStatement
+    ):
+        doc_str_idx += 1
+    if not (
+        doc_str_idx < len(cst_list)
+        and isinstance(cst_list[doc_str_idx], TripleQuoted)
+        and cst_list[doc_str_idx].is_docstr
+    ):
+        # No docstring; a new one goes after the comment trailing the `def`/`class` line (if any)
+        doc_str_idx = cst_idx + 1
+        while (
+            doc_str_idx < len(cst_list)
+            and isinstance(cst_list[doc_str_idx], CommentStatement)
+            and not cst_list[doc_str_idx].value.startswith("\n")
+        ):
+            doc_str_idx += 1
     cur_node_after_func = (
-        cst_list[cst_idx + 1]
-        if cst_idx + 1 < len(cst_list)
+        cst_list[doc_str_idx]
+        if doc_str_idx < len(cst_list)
         else UnchangingLine(0, 0, "")
     )
     existing_doc_str: bool = (
@@ -156,20 +176,20 @@ def maybe_replace_doc_str_in_function_or_class(node, cst_idx, cst_list):
 
     if new_doc_str and not existing_doc_str:
         cst_list.insert(
-            cst_idx + 1,
+            doc_str_idx,
             formatted_doc_str(new_doc_str),
         )
         changed = Delta.added
     elif not new_doc_str and existing_doc_str:
-        del cst_list[cst_idx + 1]
+        del cst_list[doc_str_idx]
         changed = Delta.removed
     # elif not new_doc_str and not existing_doc_str: changed = Delta.nop
     elif new_doc_str and existing_doc_str:
         cur_doc_str_only = cur_node_after_func.value.strip()[3:-3]
         if ne(*map(omit_whitespace, (cur_doc_str_only, new_doc_str))):
             pre, _, post = cur_node_after_func.value.partition(cur_doc_str_only)
-            cst_list[cst_idx + 1] = formatted_doc_str(
-                new_doc_str, is_double_q=cst_list[cst_idx + 1].is_double_q
+            cst_list[doc_str_idx] = formatted_doc_str(
+                new_doc_str, is_double_q=cst_list[doc_str_idx].is_double_q
             )
             changed = Delta.replaced
     if changed is not Delta.nop:
